@@ -273,6 +273,8 @@ pub(crate) struct CacheProcessor<V, U, CB, S> {
     ignore_internal_cost: bool,
     item_size: usize,
     cleanup_duration: Duration,
+    #[cfg(transparencies_stretto_verif)]
+    verif_guard: crate::verif::WorkerGuard,
 }
 
 pub(crate) struct CacheCleaner<'a, V, U, CB, S> {
@@ -691,6 +693,8 @@ where
             ignore_internal_cost,
             item_size,
             cleanup_duration,
+            #[cfg(transparencies_stretto_verif)]
+            verif_guard: crate::verif::WorkerGuard::new(),
         }
     }
 
@@ -778,6 +782,233 @@ where
                 default => return Ok(()),
             }
         }
+    }
+}
+
+/// A cache processor (and its policy worker) that was built but not spawned; the verification
+/// harness fires the arms of the processor loop one at a time.
+#[cfg(transparencies_stretto_verif)]
+pub struct AsyncParkedProcessor<V, U, CB, S> {
+    processor: CacheProcessor<V, U, CB, S>,
+    policy_worker: crate::policy::AsyncPolicyProcessor<S>,
+}
+
+#[cfg(transparencies_stretto_verif)]
+impl<K, V, KH, C, U, CB, S> AsyncCacheBuilder<K, V, KH, C, U, CB, S>
+where
+    K: Hash + Eq,
+    V: Send + Sync + 'static,
+    KH: KeyBuilder<Key = K>,
+    C: Coster<Value = V>,
+    U: UpdateValidator<Value = V>,
+    CB: CacheCallback<Value = V>,
+    S: BuildHasher + Clone + 'static + Send + Sync,
+{
+    /// `finalize` without spawning the two background tasks.
+    #[allow(clippy::type_complexity)]
+    pub fn verif_finalize_parked(
+        self,
+    ) -> Result<
+        (
+            AsyncCache<K, V, KH, C, U, CB, S>,
+            AsyncParkedProcessor<V, U, CB, S>,
+        ),
+        CacheError,
+    > {
+        let num_counters = self.inner.num_counters;
+
+        if num_counters == 0 {
+            return Err(CacheError::InvalidNumCounters);
+        }
+
+        let max_cost = self.inner.max_cost;
+        if max_cost == 0 {
+            return Err(CacheError::InvalidMaxCost);
+        }
+
+        let insert_buffer_size = self.inner.insert_buffer_size;
+        if insert_buffer_size == 0 {
+            return Err(CacheError::InvalidBufferSize);
+        }
+
+        let (buf_tx, buf_rx) = bounded(insert_buffer_size);
+        let (stop_tx, stop_rx) = stop_channel();
+        let (clear_tx, clear_rx) = unbounded();
+
+        let hasher = self.inner.hasher.unwrap();
+        let expiration_map = ExpirationMap::with_hasher(hasher.clone());
+
+        let store = Arc::new(ShardedMap::with_validator_and_hasher(
+            expiration_map,
+            self.inner.update_validator.unwrap(),
+            hasher.clone(),
+        ));
+        let (mut policy, policy_worker) =
+            AsyncLFUPolicy::verif_with_hasher_parked(num_counters, max_cost, hasher)?;
+
+        let coster = Arc::new(self.inner.coster.unwrap());
+        let callback = Arc::new(self.inner.callback.unwrap());
+        let metrics = if self.inner.metrics {
+            let m = Arc::new(Metrics::new_op());
+            policy.collect_metrics(m.clone());
+            m
+        } else {
+            Arc::new(Metrics::new())
+        };
+
+        let policy = Arc::new(policy);
+        let processor = CacheProcessor::new(
+            100000,
+            self.inner.ignore_internal_cost,
+            self.inner.cleanup_duration,
+            store.clone(),
+            policy.clone(),
+            buf_rx,
+            stop_rx,
+            clear_rx,
+            metrics.clone(),
+            callback.clone(),
+        );
+
+        let buffer_items = self.inner.buffer_items;
+        let get_buf = AsyncRingStripe::new(policy.clone(), buffer_items);
+        let this = AsyncCache {
+            store,
+            policy,
+            get_buf: Arc::new(get_buf),
+            insert_buf_tx: buf_tx,
+            callback,
+            key_to_hash: Arc::new(self.inner.key_to_hash),
+            stop_tx,
+            clear_tx,
+            is_closed: Arc::new(AtomicBool::new(false)),
+            coster,
+            metrics,
+            _marker: Default::default(),
+        };
+
+        Ok((
+            this,
+            AsyncParkedProcessor {
+                processor,
+                policy_worker,
+            },
+        ))
+    }
+}
+
+#[cfg(transparencies_stretto_verif)]
+impl<V, U, CB, S> AsyncParkedProcessor<V, U, CB, S>
+where
+    V: Send + Sync + 'static,
+    U: UpdateValidator<Value = V>,
+    CB: CacheCallback<Value = V>,
+    S: BuildHasher + Clone + 'static + Send + Sync,
+{
+    /// the `insert_buf_rx.recv()` arm; `None` if the buffer is empty
+    pub fn step_insert(&mut self) -> Option<Result<(), CacheError>> {
+        match self.processor.insert_buf_rx.try_recv() {
+            Ok(item) => Some(self.processor.handle_insert_event(Ok(item))),
+            Err(_) => None,
+        }
+    }
+
+    /// the `clear_rx.recv()` arm; `None` if no clear signal is queued. The cleaner never
+    /// suspends (it selects with a default arm), so it is driven to completion here.
+    pub fn step_clear(&mut self) -> Option<Result<(), CacheError>> {
+        match self.processor.clear_rx.try_recv() {
+            Ok(_) => Some(
+                CacheCleaner::new(&mut self.processor)
+                    .clean()
+                    .now_or_never()
+                    .expect("the cleaner does not suspend"),
+            ),
+            Err(_) => None,
+        }
+    }
+
+    /// the `cleanup_timer.next()` arm
+    pub fn step_cleanup(&mut self) -> Result<(), CacheError> {
+        self.processor.handle_cleanup_event()
+    }
+
+    /// the `stop_rx.recv()` arm: true if a stop signal was queued (the loop would return)
+    pub fn try_stop(&mut self) -> bool {
+        if self.processor.stop_rx.try_recv().is_ok() {
+            let _ = self.processor.handle_close_event();
+            true
+        } else {
+            false
+        }
+    }
+
+    /// one batch of the policy worker; false if its queue is empty
+    pub fn step_policy(&mut self) -> bool {
+        self.policy_worker.verif_step()
+    }
+
+    /// the policy worker's stop arm
+    pub fn try_stop_policy(&mut self) -> bool {
+        self.policy_worker.verif_try_stop()
+    }
+
+    /// (insert buffer, clear signals, policy batches) waiting
+    pub fn pending(&self) -> (usize, usize, usize) {
+        (
+            self.processor.insert_buf_rx.len(),
+            self.processor.clear_rx.len(),
+            self.policy_worker.verif_pending(),
+        )
+    }
+
+    /// number of admissions currently tracked for the life-expectancy histogram
+    pub fn tracked(&self) -> usize {
+        self.processor.start_ts.len()
+    }
+
+    /// per-entry internal cost
+    pub fn item_size(&self) -> usize {
+        self.processor.item_size
+    }
+}
+
+#[cfg(transparencies_stretto_verif)]
+impl<K, V, KH, C, U, CB, S> AsyncCache<K, V, KH, C, U, CB, S>
+where
+    K: Hash + Eq,
+    V: Send + Sync + Clone + 'static,
+    KH: KeyBuilder<Key = K>,
+    C: Coster<Value = V>,
+    U: UpdateValidator<Value = V>,
+    CB: CacheCallback<Value = V>,
+    S: BuildHasher + Clone + 'static + Send,
+{
+    /// read-only picture of store, policy and expiration index
+    pub fn verif_snapshot(&self) -> crate::verif::Snapshot<V> {
+        let (costs, used, max_cost) = self.policy.inner.lock().verif_costs();
+        crate::verif::Snapshot {
+            entries: self.store.verif_entries(),
+            costs,
+            used,
+            max_cost,
+            buckets: self.store.verif_buckets(),
+            len: self.store.len(),
+        }
+    }
+
+    /// TinyLFU estimate of an index hash
+    pub fn verif_estimate(&self, index: u64) -> i64 {
+        self.policy.inner.lock().verif_estimate(index)
+    }
+
+    /// (accesses since the last reset, window length) of the admission filter
+    pub fn verif_window(&self) -> (usize, usize) {
+        self.policy.inner.lock().verif_window()
+    }
+
+    /// per-entry internal cost
+    pub fn verif_item_size(&self) -> usize {
+        self.store.item_size()
     }
 }
 
